@@ -1559,10 +1559,19 @@ func (c *Ctx) rulesR4histsib() {
 		}
 		found := false
 		k0 := n
-		for _, b := range f.Blocks {
+		var blocks []*ssa.BasicBlock
+		for _, hf := range c.hostedFns(f) {
+			blocks = append(blocks, hf.Blocks...)
+		}
+		for _, b := range blocks {
 			for _, ins := range b.Instrs {
+				// the match decision: a bool variable merged from constants (any
+				// name; the phis of && / || are not variables)
 				phi, ok := ins.(*ssa.Phi)
-				if !ok || phi.Comment != "match" {
+				if !ok || phi.Comment == "&&" || phi.Comment == "||" {
+					continue
+				}
+				if bt, ok := phi.Type().Underlying().(*types.Basic); !ok || bt.Kind() != types.Bool {
 					continue
 				}
 				for i, e := range phi.Edges {
@@ -1635,16 +1644,8 @@ func (c *Ctx) rulesR4lastpass() {
 		var older *ssa.Phi
 		for _, b := range f.Blocks {
 			for _, ins := range b.Instrs {
-				if p, ok := ins.(*ssa.Phi); ok && p.Comment == "older" {
-					isHdr := false
-					for _, pr := range b.Preds {
-						if b.Dominates(pr) {
-							isHdr = true
-						}
-					}
-					if isHdr && older == nil {
-						older = p
-					}
+				if p, ok := ins.(*ssa.Phi); ok && isPendingRecordPhi(p) && older == nil {
+					older = p
 				}
 			}
 		}
@@ -1680,7 +1681,7 @@ func (c *Ctx) rulesR4lastpass() {
 			isOlder := func(v ssa.Value) bool {
 				return flowsFrom(v, func(x ssa.Value) bool {
 					p, ok := x.(*ssa.Phi)
-					return ok && p.Comment == "older"
+					return ok && isPendingRecordPhi(p)
 				})
 			}
 			if !((isOlder(bo.X) && isNil(bo.Y)) || (isOlder(bo.Y) && isNil(bo.X))) {
@@ -2077,4 +2078,24 @@ func commonGuards(sites []callSite) []Guard {
 		out = keep
 	}
 	return out
+}
+
+// isPendingRecordPhi: a loop-carried variable (phi in a loop header) holding a
+// *MemoryRecord: the record that was read but not checked yet (`older` in the
+// key-value backends), whatever it is called.
+func isPendingRecordPhi(p *ssa.Phi) bool {
+	pt, ok := p.Type().Underlying().(*types.Pointer)
+	if !ok {
+		return false
+	}
+	if nt := namedOf(pt.Elem()); nt == nil || nt.Obj().Name() != "MemoryRecord" {
+		return false
+	}
+	b := p.Block()
+	for _, pr := range b.Preds {
+		if b.Dominates(pr) {
+			return true
+		}
+	}
+	return false
 }
